@@ -23,13 +23,14 @@ import numpy as np
 PROPERTY = "C34"
 TECHNIQUE = "runtime monitoring; history monitor on config.set.__init__/__exit__ with a deep-copy model, checked after every __exit__"
 RULE = ("random programs: trees of config.set contexts, nest depth 1-5, 0-4 settings per context from a typed key schema (existing "
-        "and new keys, flat/dotted paths, whole dict values, dash/underscore aliases), call forms dict/kwargs(__)/both, exceptions "
+        "and new keys, keys whose default is falsy, flat/dotted paths, whole dict values, dash/underscore aliases, falsy values False/None/0/0.0/''/[]), "
+        "one case in five is a chain that sets the same key at every level to falsy values, call forms dict/kwargs(__)/both, exceptions "
         "raised at random body positions and caught at random ancestors, optional abTEM-internal contexts inside bodies, global "
         "or private config dict; non-trivial = at least 2 nested levels and at least one inserted (new) key or an exception exit; "
         "distinct = distinct program signature")
 CLAUSES = ["restored-after-exit", "restored-after-exception-exit", "restored-final", "new-keys-removed",
            "inner-exit-restores-own-entry", "internal-context-monitored"]
-QUICK = dict(n=6000, time=45)
+QUICK = dict(n=4000, time=40)
 THOROUGH = dict(n=60000, time=120, shards=16)
 
 # typed schema: dict = section (only ever holds dicts), None = leaf (only ever holds non-dict values)
@@ -38,14 +39,22 @@ SCHEMA = {
     "dask": {"lazy": None, "chunk-size": None, "chunk-size-gpu": None, "vf_x": None,
              "vf-sub": {"k_1": None, "k-2": None}},
     "fftw": {"threads": None, "planning_effort": None, "allow_fallback": None, "vf": {"deep": {"leaf": None}}},
-    "visualize": {"use_tex": None, "cmap": None, "autoscale": None, "vf_units": None},
+    "visualize": {"use_tex": None, "cmap": None, "autoscale": None, "continuous_update": None, "vf_units": None},
     "warnings": {"overspecified-grid": None, "dask-blockwise-performance": None},
+    "diagnostics": {"task_progress": None, "progress_bar": None},      # task_progress is False by default (falsy old value)
+    "cupy": {"fft-cache-size": None},
     "antialias": {"cutoff": None, "taper": None},
     "vf_new": None, "vf-dash": None,
     "vf_sec": {"a": None, "b": {"c": None, "d": None}, "e-f": None},
     "vf_other": {"x": None},
 }
-LEAVES = [True, False, None, 0, 1, 2, -7, 0.5, 1.0, "float64", "float32", "numpy", "cpu", "", "128 MB", [1, 2], [], [[1], "a"]]
+LEAVES = [True, False, None, 0, 1, 2, -7, 0.5, 1.0, "float64", "float32", "numpy", "cpu", "", "128 MB", [1, 2], [], [[1], "a"],
+          0.0, -0.0, "0", "False", [None], [0]]
+FALSY = [False, None, 0, 0.0, "", []]
+# keys whose value is falsy in the default configuration, and new keys (nothing there at all)
+CHAIN_PATHS = [["diagnostics", "task_progress"], ["warnings", "dask-blockwise-performance"], ["visualize", "autoscale"],
+               ["visualize", "continuous_update"], ["vf_new"], ["vf_sec", "b", "c"], ["dask", "vf_x"], ["precision"],
+               ["dask", "lazy"]]
 
 
 def _leaf(rng):
@@ -107,7 +116,30 @@ def _node(rng, depth, max_depth):
             "exc": str(rng.choice(["Boom", "ValueError", "KeyError"])), "catch": bool(rng.random() < 0.4)}
 
 
+def _chain(rng):
+    """The same key set at every level of one nest, cycling through falsy (and a few truthy) values: the value an inner
+    exit has to put back is itself falsy, and so may be the value that was there before the outermost context."""
+    path = CHAIN_PATHS[int(rng.integers(0, len(CHAIN_PATHS)))]
+    depth = int(rng.integers(2, 6))
+    node = None
+    for level in range(depth, 0, -1):
+        v = FALSY[int(rng.integers(0, len(FALSY)))] if rng.random() < 0.75 else _leaf(rng)
+        spelled = [_alias(rng, k) for k in path]
+        settings = [{"path": spelled, "value": v}]
+        if rng.random() < 0.2:
+            settings.append(_setting(rng))
+        children = [node] if node is not None else []
+        body = [{"child": 0}] if children else []
+        raise_at = int(rng.integers(0, len(body) + 1)) if rng.random() < 0.3 else None
+        node = {"settings": settings, "form": str(rng.choice(["dict", "kwargs", "both"])), "children": children, "body": body,
+                "raise_at": raise_at, "exc": str(rng.choice(["Boom", "ValueError", "KeyError"])), "catch": bool(rng.random() < 0.4)}
+    return node, depth
+
+
 def gen(rng, tier):
+    if rng.random() < 0.2:
+        root, depth = _chain(rng)
+        return {"roots": [root], "own_config": bool(rng.random() < 0.15), "max_depth": depth}
     max_depth = int(rng.choice([1, 2, 3, 3, 4, 5]))
     roots = [_node(rng, 1, max_depth) for _ in range(int(rng.choice([1, 1, 2])))]
     return {"roots": roots, "own_config": bool(rng.random() < 0.15), "max_depth": max_depth}
@@ -141,6 +173,18 @@ def fixed_cases(tier):
     out.append({"roots": [n, leaf([])], "own_config": False, "max_depth": 1})
     out.append({"roots": [nest([S("precision", "float64")], leaf([S("vf_other.x", [1, 2])], raise_at=0, exc="KeyError"),
                                catch=True)], "own_config": True, "max_depth": 2})
+    # falsy values all the way: existing key whose default is False, then 0 / "" / None / True; exception from the innermost body
+    for path in ("diagnostics.task_progress", "vf_new", "dask.lazy", "vf_sec.b.c"):
+        chain = leaf([S(path, True)], raise_at=0, exc="ValueError")
+        for v in (None, "", 0, False):
+            chain = nest([S(path, v)], chain)
+        chain["catch"] = True
+        out.append({"roots": [chain], "own_config": False, "max_depth": 5})
+    # the same with the kwargs form and a falsy replacement of a whole section
+    out.append({"roots": [nest([S("visualize.autoscale", 0)], nest([S("visualize.autoscale", None)],
+                                                                  leaf([S("visualize", {}), S("visualize.autoscale", "")], form="kwargs"),
+                                                                  form="kwargs"), form="kwargs")],
+                "own_config": False, "max_depth": 3})
     return out
 
 
